@@ -408,7 +408,7 @@ func (fr *Frame) encodeFindStringIndex(x *ssa.Call) {
 	} else {
 		vc.addErr("%s: FindStringIndex on a Regexp of unknown origin", fr.label)
 	}
-	vc.note("(*Regexp).FindStringIndex on the class patterns [c]* / [c]+ returns the leftmost-longest match (cross-checked against the real package by the thorough tier)")
+	vc.note("(*Regexp).FindStringIndex on the class patterns [c]* / [c]+ returns the leftmost-longest match (assumed; checked against the real package on all strings of <= 5 representative characters by the bounded part of C05)")
 	ity := tyInt
 	fr.regElem(ity)
 	a := fr.bump(ctrArr(ity))
